@@ -203,8 +203,12 @@ func (db *DB) Put(key []byte, value []byte) error {
 	logRecord.Key = key
 	logRecord.Value = append(logRecord.Value, value...)
 
+	// 追加日志与更新索引必须处于同一临界区, 保证索引顺序与日志顺序一致
+	db.mu.Lock()
+	defer db.mu.Unlock()
+
 	// 将日志记录追加到当前活跃文件
-	pos, err := db.appendLogRecordWithLock(logRecord)
+	pos, err := db.appendLogRecord(logRecord)
 	if err != nil {
 		return err
 	}
@@ -244,6 +248,10 @@ func (db *DB) Delete(key []byte) error {
 		return ErrKeyIsEmpty
 	}
 
+	// 存在性校验、追加墓碑值与更新索引必须处于同一临界区
+	db.mu.Lock()
+	defer db.mu.Unlock()
+
 	if pos := db.index.Get(key); pos == nil {
 		return nil
 	}
@@ -256,7 +264,7 @@ func (db *DB) Delete(key []byte) error {
 	logRecord.Key = key
 	logRecord.Type = datafile.LogRecordDeleted
 
-	pos, err := db.appendLogRecordWithLock(logRecord)
+	pos, err := db.appendLogRecord(logRecord)
 	if err != nil {
 		return err
 	}
